@@ -40,7 +40,10 @@ def recheck(name: str) -> int:
     rc, out = sh(f"patch -p1 --no-backup-if-mismatch < {d / 'patch.diff'}", cwd=copy)
     if rc != 0:
         print(f"{name}: patch does not apply"); shutil.rmtree(work, ignore_errors=True); return 2
-    envc = dict(os.environ, TOPSEARCH_REPO=str(copy))
+    # a private copy of the Lean project and a private evidence directory: rechecks of different seeds can run side by side
+    sh(f"rsync -a {V / 'lean'}/ {work / 'lean'}/")
+    (work / "evidence" / "replay").mkdir(parents=True)
+    envc = dict(os.environ, TOPSEARCH_REPO=str(copy), VERIF_LEAN_DIR=str(work / "lean"), VERIF_EVIDENCE_DIR=str(work / "evidence"))
     res = {}
     for tier in ("quick", "thorough"):
         rcq, oq = sh(["./check", pid, "--tier", tier], cwd=V, env=envc, timeout=6000)
@@ -57,7 +60,6 @@ def recheck(name: str) -> int:
     if concrete:
         by.append("predicate (concrete replay)")
     res = {"caught": rcq == 1, "tier": tier, "by": by, "concrete_replay": concrete, "output": [l[:300] for l in lines[:6]]}
-    sh(["./check", pid, "--tier", "quick"], cwd=V, timeout=3000)      # regenerate Gen from the real tree
     m = json.loads((d / "meta.json").read_text())
     m.setdefault("evaluation", {})["recheck"] = res
     (d / "meta.json").write_text(json.dumps(m, indent=1))
